@@ -428,6 +428,25 @@ template<class T> void predicatesFor(vrt::Case& c, int a, int b, int lo0, int hi
     z -= static_cast<T>(sft);
     vrt::expect(z == x, "range.shift", ty + ":-=", [&] { return xs + " -= => " + z.toString(); });
   }
+  // downward shifts below the lower end (after C20-s10): for signed and real coordinates the result has negative
+  // coordinates; for unsigned coordinates both ends move in modular arithmetic (well defined in C++), which is what
+  // `-=` does bound by bound.  In every case the statement's "shifting preserves length" applies, the binary and the
+  // compound form are the same shift, and shifting back restores the range.
+  for (int sft : { 1, 2, 3, 4, 5, 7, 11, 24, 25, 30 })
+  {
+    const T v = static_cast<T>(sft);
+    const std::string how = (std::is_unsigned<T>::value && sft > xl) ? (sft > xh ? ":below-zero-both-ends" : ":below-zero-lower-end") : ":plain";
+    Range<T> xc(x);
+    Range<T> d = xc - v;
+    Range<T> dc(x);
+    dc -= v;
+    vrt::expect(d.length() == x.length(), "range.shift", ty + ":-:length" + how, [&] { return xs + " - " + str(sft) + " => length " + str(d.length()) + " expected " + str(x.length()); });
+    vrt::expect(dc.length() == x.length(), "range.shift", ty + ":-=:length" + how, [&] { return xs + " -= " + str(sft) + " => length " + str(dc.length()) + " expected " + str(x.length()); });
+    vrt::expect(d.begin() == dc.begin() && d.end() == dc.end(), "range.shift", ty + ":-:same-as-compound" + how, [&] { return xs + " - " + str(sft) + " => [" + str(d.begin()) + "," + str(d.end()) + "[ but -= gives [" + str(dc.begin()) + "," + str(dc.end()) + "["; });
+    Range<T> back = Range<T>(d) + v;
+    vrt::expect(back.begin() == x.begin() && back.end() == x.end(), "range.shift", ty + ":-+:restores" + how, [&] { return "(" + xs + " - " + str(sft) + ") + " + str(sft) + " => [" + str(back.begin()) + "," + str(back.end()) + "["; });
+    vrt::cover("shift-down" + how + ":" + ty);
+  }
 }
 
 void casePredicates(vrt::Case& c)
